@@ -71,7 +71,9 @@ impl OverlayFS {
         let separator = path.rfind('/');
         if let Some(index) = separator {
             let parent_path = &path[..index];
-            if self.exists(parent_path)? {
+            if self.exists(parent_path)?
+                && self.metadata(parent_path)?.file_type == VfsFileType::Directory
+            {
                 self.write_path(parent_path)?.create_dir_all()?;
                 return Ok(());
             }
